@@ -658,6 +658,27 @@ func checkThreshold(c xabl) ev.Outcome {
 		return o
 	}
 	o.Counts = map[string]int{}
+	// The documented idiom for "distance <= limit": pass limit.Successor().
+	// With the limit one ulp above the library's own computed distance d the
+	// answer must be "less" (the doc of the lower-bound pre-test says it uses
+	// ">" rather than ">=" precisely so that this holds), and the thresholded
+	// form must report the same d.
+	if df > 0 && df < 4 {
+		succ := d.Successor()
+		if !s2.IsDistanceLess(x, a, b, succ) {
+			o.Err = fmt.Sprintf("IsDistanceLess(x,a,b, d.Successor()) is false for the library's own computed distance d=%.17g", df)
+			o.Finding = tinyFinding(g, "successor")
+			return o
+		}
+		if ds, ok := s2.UpdateMinDistance(x, a, b, succ); !ok || ds != d {
+			o.Err = fmt.Sprintf("UpdateMinDistance(x,a,b, d.Successor()) = (%.17g,%v), want (d=%.17g,true)", float64(ds), ok, df)
+			o.Finding = tinyFinding(g, "successor")
+			return o
+		}
+		if s2.IsDistanceLess(x, a, b, d) {
+			o.Counts["isdistanceless_true_at_own_distance"]++
+		}
+	}
 	less := s2.IsDistanceLess(x, a, b, limit)
 	d2, upd := s2.UpdateMinDistance(x, a, b, limit)
 	if upd != less {
